@@ -194,6 +194,15 @@ impl Git {
         self.cmd(dir, &["clean", "-f", "--", "v-*", "snapshot", "meta"])
     }
 
+    /// Discard everything in the index and working tree that is not part of a commit: staged or
+    /// modified files left behind by a write that failed or was interrupted before its commit.
+    fn discard_uncommitted(&self, dir: &Path) -> Result<()> {
+        if self.cmd_ok(dir, &["rev-parse", "--verify", "--quiet", "HEAD"])? {
+            self.cmd(dir, &["reset", "--hard", "HEAD"])?;
+        }
+        self.clean_stray_files(dir)
+    }
+
     /// Return how long ago `filename` was last committed in `dir`, or `None` if git has no
     /// record of it. A missing record is treated as "keep".
     fn version_file_age(&self, dir: &Path, filename: &str) -> Result<Option<Duration>> {
@@ -300,6 +309,10 @@ impl GitSyncServer {
                 )?;
             }
         }
+
+        // A write that was interrupted before its commit may have left a modified meta or a
+        // staged version file behind; neither is part of the history.
+        git.discard_uncommitted(local_path)?;
 
         // Check for meta file, create and commit if missing.
         let meta_path = local_path.join("meta");
@@ -457,6 +470,18 @@ impl GitSyncServer {
             }));
         }
         Ok(None)
+    }
+
+    /// Write the version file and the updated meta, and commit both.
+    fn write_and_commit_version(&mut self, version: &Version) -> Result<()> {
+        let version_path = self.add_version_by_parent_version_id(version)?;
+        self.meta.latest_version = version.version_id;
+        let meta_path = self.write_meta()?;
+        self.git.stage_and_commit(
+            &self.local_path,
+            &[&version_path, &meta_path],
+            "add version",
+        )
     }
 
     /// Return the [`SnapshotUrgency`] based on the number of post-snapshot versions.
@@ -673,25 +698,23 @@ impl Server for GitSyncServer {
                 parent_version_id,
                 history_segment: history_segment.clone(),
             };
-            let version_path = self.add_version_by_parent_version_id(&version)?;
-            self.meta.latest_version = version_id;
-            let meta_path = self.write_meta()?;
-
-            // Commit and push, reverting if push fails.
-            self.git.stage_and_commit(
-                &self.local_path,
-                &[&version_path, &meta_path],
-                "add version",
-            )?;
+            // Write and commit, leaving nothing behind if that fails.
+            if let Err(e) = self.write_and_commit_version(&version) {
+                self.git.discard_uncommitted(&self.local_path)?;
+                self.read_meta()?;
+                return Err(e);
+            }
 
             if self.push()? {
                 break version_id;
             }
 
-            // Push was rejected. Undo the commit. reset_to_remote will fetch, reset --hard,
-            // and clean away the stray version file.
+            // Push was rejected. Drop the commit entirely, so that the version is not served
+            // from the working tree even if the remote cannot be reached right now, then take
+            // over the remote state.
             self.git
-                .cmd(&self.local_path, &["reset", "HEAD~1", "--soft"])?;
+                .cmd(&self.local_path, &["reset", "--hard", "HEAD~1"])?;
+            self.read_meta()?;
             self.reset_to_remote()?;
             self.read_meta()?;
             attempts += 1;
@@ -750,17 +773,24 @@ impl Server for GitSyncServer {
             payload: Vec::<u8>::from(sealed),
         };
         let snapshot_path = self.local_path.join("snapshot");
-        let f = File::create(&snapshot_path)?;
-        serde_json::to_writer(f, &snapshot_file)?;
 
-        // Commit and push, reverting if push fails.
-        self.git
-            .stage_and_commit(&self.local_path, &[&snapshot_path], "add snapshot")?;
+        // Write and commit, leaving nothing behind if that fails.
+        let committed = File::create(&snapshot_path)
+            .map_err(Error::from)
+            .and_then(|f| Ok(serde_json::to_writer(f, &snapshot_file)?))
+            .and_then(|_| {
+                self.git
+                    .stage_and_commit(&self.local_path, &[&snapshot_path], "add snapshot")
+            });
+        if let Err(e) = committed {
+            self.git.discard_uncommitted(&self.local_path)?;
+            return Err(e);
+        }
 
         if !self.push()? {
-            // Push was rejected. Undo the commit and reset_to_remote to restore state.
+            // Push was rejected. Drop the commit entirely and take over the remote state.
             self.git
-                .cmd(&self.local_path, &["reset", "HEAD~1", "--soft"])?;
+                .cmd(&self.local_path, &["reset", "--hard", "HEAD~1"])?;
             self.reset_to_remote()?;
             self.read_meta()?;
             return Err(Error::Server("Couldn't push to remote.".into()));
